@@ -22,7 +22,9 @@ CONFIG = {
             "immediate -- quick: up to 2 past the group plus 254/255, thorough: all 256) x every program version 0..LogicVersion x "
             "both modes, as a minimal crafted program (constant blocks, argument pushes, the instruction) through the real "
             "CheckSignature/CheckContract and EvalSignatureFull/EvalContract on a populated mock ledger; the instruction is observed "
-            "with the Tracer hooks (stack before, remaining budget, error class, LedgerForLogic calls). b: the extreme-immediate stream of C31 (all versions, both modes) and random branch layouts "
+            "with the Tracer hooks (stack before, remaining budget, error class, LedgerForLogic calls). b: the extreme-immediate stream of C31 (all versions, both modes); a forward-target sweep (every version, both modes: a "
+            "TAKEN forward bnz/bz/b/callsub/switch-label/match-label to EVERY byte offset of a body holding one instruction of every "
+            "layout kind, incl. all nine 0xd4-prefixed sub-opcode instructions in v13+ app mode, ~6200 programs); and random branch layouts "
             "(bnz/bz/b/callsub/retsub/switch/match/constant blocks, 2-byte and varint offsets, targets on/off instruction boundaries, "
             "corrupted and truncated programs): real check(), the instructionStarts of the real checkStep, pc/callstack trajectory "
             "of the real evaluation. Non-trivial: x when the instruction executed or must be rejected, b when the check passed and "
